@@ -174,23 +174,22 @@ def stateOut (e : Eng) (callsFrom lookupsFrom movesFrom : Nat) : String :=
   let st := e.vm.st
   s!"p={pathOut st.execPath} i={st.sizeIdx} fl={hexOut st.flagBytes} cd={hexOut st.code} fr={framesOut e.vm.ca} sz={sizesOut e.vm.ca} u={e.vm.ca.useSize} lv={hexOut e.vm.ca.lastValue} cl={callsOut e.vm.ghost callsFrom} lk={lookupsOut e.vm.ghost lookupsFrom} lg={optOut st.language} mv={movesOut e.vm.ghost movesFrom}"
 
-/-- one request on an engine: Exec, then Flush unless Exec failed -/
+/-- one request on an engine, through the model's own `Vise.request` (the definition the theorems
+are about); the error-prefix marker and the diagnostic kind are computed on the side. -/
 def request (env : Env) (cfg : Cfg) (e : Eng) (input : Bytes) : ReqOut × Eng :=
+  let (o, e2) := Vise.request env cfg e input
   let (rx, e1) := exec env cfg input e
-  match rx with
-  | .ok cont =>
-    let hadErr := e1.vm.pg.err.isSome
-    let opq := e1.vm.errOpaque
-    let (rf, e2) := flush env e1
-    match rf with
-    | .ok out =>
-      let shown := hadErr && out.length > 0
-      ({ x := "ok", c := cont, f := "ok", o := out, e := if shown then (if opq then 2 else 1) else 0 }, e2)
-    | r => ({ x := "ok", c := cont, f := vresTag r, o := [], e := 0,
-              xk := match r with | .err k _ => "flush:" ++ k | .panic p => "flushpanic:" ++ p | _ => "-" }, e2)
-  | .err "invalid-input" _ => ({ x := "err", c := true, f := "-", o := [], e := 0 }, e1)
-  | r => ({ x := vresTag r, c := false, f := "-", o := [], e := 0,
-            xk := match r with | .err k _ => k | .panic p => "panic:" ++ p | _ => "-" }, e1)
+  let hadErr := e1.vm.pg.err.isSome
+  let opq := e1.vm.errOpaque
+  let shown := o.f = "ok" && hadErr && o.out.length > 0
+  let xk := match rx with
+    | .err k _ => k
+    | .panic p => "panic:" ++ p
+    | .ok _ => match (flush env cfg e1).1 with
+      | .err k _ => "flush:" ++ k
+      | .panic p => "flushpanic:" ++ p
+      | .ok _ => "-"
+  ({ x := o.x, c := o.cont, f := o.f, o := o.out, e := if shown then (if opq then 2 else 1) else 0, xk := xk }, e2)
 
 def reqOutStr (r : ReqOut) : String :=
   s!"x={r.x} c={if r.c then 1 else 0} f={r.f} o={hexOut r.o} e={r.e} xk={r.xk.replace " " "_"}"
